@@ -110,7 +110,7 @@ package rueidisprob
 // (hcount is defined next to the RedisMessage contracts of the core module: it reads unexported fields)
 // the decoders close a group when (i+1) % k == 0: with i+1 = q*k + d and 1 <= d <= k that is exactly d == k.
 // (cell(q, d) only serves as the trigger that names d; the loop invariants mention it)
-//@ lemma [C36 block-boundary use] forall q int, k int, d int :: {mulk(q, k), cell(q, d)} (k >= 1 && 1 <= d && d <= k) ==> (((mulk(q, k) + d) % k == 0) <==> (d == k))
+//@ lemma [C36 block-boundary use] forall q int, k int, d int :: {mulk(q, k), cell(q, d)} (q >= 0 && k >= 1 && 1 <= d && d <= k) ==> (((mulk(q, k) + d) % k == 0) <==> (d == k))
 
 // a counting filter, once constructed, has at least one counter per item and a non-empty table (established by
 // NewCountingBloomFilter, never written afterwards: checked wherever a countingBloomFilter is stored)
@@ -155,6 +155,7 @@ package rueidisprob
 
 //@ func countingBloomFilter.ItemMinCountMulti
 //@   option opaque-pkgs=github.com/redis/rueidis/internal/cmds
+//@   option nldiv=opaque
 //@   requires f.hashIterations >= 1 && f.hashIterations <= 4294967296 && f.size >= 1
 //@   requires len(keys) * f.hashIterations <= 1099511627776
 //@   modifies *
@@ -167,6 +168,7 @@ package rueidisprob
 
 //@ func countingBloomFilter.ExistsMulti
 //@   option opaque-pkgs=github.com/redis/rueidis/internal/cmds
+//@   option nldiv=opaque
 //@   requires f.hashIterations >= 1 && f.hashIterations <= 4294967296 && f.size >= 1
 //@   requires len(keys) * f.hashIterations <= 1099511627776
 //@   modifies *
